@@ -12,6 +12,9 @@ hash parameters of the model instantiated by the executable specs in Qx.Crypto.
                          -> <A|R|F> <outs> <result>           (handleElement)
   dparse <bytes>         -> <map>                             (QXmppSaslDigestMd5::parseMessage)
   dser <map>             -> <bytes>                           (QXmppSaslDigestMd5::serializeMessage)
+  reset f <user> <pass>  -> ok     (one client object / FastTokenManager over several connections; Sasl2Manager per login)
+  setcreds <0|1> <token> | login <fastEnabled 0|1> <!|-|HT names,…> | success <tokensecret|-> | fail
+                         -> <what was sent: plain <initial> req=<name|-> / ht <name> <initial> req=… / error / -> tok=<name/hex|-> ch=<0|1>
 All byte strings are hex, the empty one is `-`.  <map> = `{}` or `k:v;k:v…`.  <outs> = `-` or `auth:<hex>` /
 `resp:<hex>` / `abort` joined by `,`.  <result> = `-` | success | cannot-respond | auth-failed | required-tasks | not-proved.
 -/
@@ -56,6 +59,43 @@ def tokenOf (s : String) : Option (Option (Nat × Bytes)) :=
     | [n, sec] => (hexArg sec).map fun b => some (htId n, b)
     | _ => none
 
+def fastNames : List String := ["HT-SHA-256-NONE", "HT-SHA-512-NONE", "HT-SHA3-256-NONE", "HT-SHA3-512-NONE"]
+
+def fastFam (m : Nat) : Crypto :=
+  match m with
+  | 0 => ⟨sha256, hmacSha256, fun _ _ _ => []⟩
+  | 1 => ⟨sha512, hmacSha512, fun _ _ _ => []⟩
+  | 2 => ⟨sha3_256, hmacSha3_256, fun _ _ _ => []⟩
+  | _ => ⟨sha3_512, hmacSha3_512, fun _ _ _ => []⟩
+
+def fastName (m : Nat) : String := fastNames.getD m "?"
+
+def fastTok (s : String) : Option (Option (Nat × Bytes)) :=
+  if s = "-" then some none
+  else match s.splitOn "/" with
+    | [n, sec] => if fastNames.contains n then (hexArg sec).map fun b => some (fastNames.idxOf n, b) else none
+    | _ => none
+
+def fastOffer (s : String) : Option (List Nat) :=
+  if s = "!" then none
+  else if s = "-" then some []
+  else some ((s.splitOn ",").filterMap fun n => if fastNames.contains n then some (fastNames.idxOf n) else none)
+
+def showReq : Option Nat → String
+  | none => "-"
+  | some m => fastName m
+
+def showFastOut : FastOut → String
+  | .sent none i r => s!"plain {hexOut i} req={showReq r}"
+  | .sent (some m) i r => s!"ht {fastName m} {hexOut i} req={showReq r}"
+  | .error => "error"
+  | .nothing => "-"
+
+def showFastSt (st : FastSt) : String :=
+  (match st.token with
+    | none => "tok=-"
+    | some t => s!"tok={fastName t.1}/{hexOut t.2}") ++ (if st.tokenChanged then " ch=1" else " ch=0")
+
 structure DSt where
   C : Crypto := noCrypto
   cr : Cred := {}
@@ -63,6 +103,11 @@ structure DSt where
   mech : MechSt := .plain 0
   mgr : MgrSt := {}
   sasl2 : Bool := false
+  fast : FastSt := {}
+
+def doFast (s : DSt) (op : FastOp) : DSt × String :=
+  let r := fastStep fastFam s.fast op
+  ({ s with fast := r.1 }, showFastOut r.2 ++ " " ++ showFastSt r.1)
 
 def showOut : Out → String
   | .auth b => "auth:" ++ hexOut b
@@ -120,6 +165,20 @@ def stepLine (s : DSt) (line : String) : DSt × String :=
       | some cr => ({ C := c, cr := cr, kind := k, mech := mechInit k, sasl2 := mode = "sasl2" }, "ok")
       | none => (s, "bad-op")
     | none => (s, "bad-op")
+  | ["reset", "f", user, pass] =>
+    match hexArg user, hexArg pass with
+    | some u, some p => ({ fast := { user := u, pass := p } }, "ok")
+    | _, _ => (s, "bad-op")
+  | ["setcreds", pw, tok] =>
+    match fastTok tok with
+    | some t => doFast s (.setCreds (pw = "1") t)
+    | none => (s, "bad-op")
+  | ["login", en, offer] => doFast s (.login (en = "1") (fastOffer offer))
+  | ["success", tok] =>
+    match hexArg tok with
+    | some b => doFast s (.success (if tok = "-" then none else some b))
+    | none => (s, "bad-op")
+  | ["fail"] => doFast s .fail
   | ["r", ch] =>
     match hexArg ch with
     | some ch =>
